@@ -74,7 +74,7 @@ pub fn get(id: &str, thorough: bool) -> Option<PropDef> {
                 labels: m::c01_labels,
                 nontrivial: &["tell_waited_for_slot", "op_timed_out", "last_ref_dropped_with_queue", "stop_while_sender_pending"],
                 rule: "scenario = scripted actors + concurrent client scripts (tell/ask/*_with_timeout, clone/drop/downgrade/upgrade, stop) generated from a choice tape by proptest; distinct by FNV-1a of the canonical scenario JSON; non-trivial iff in the executed trace a tell waited for a mailbox slot, or a *_with_timeout timed out, or the last strong handle was dropped with >=1 accepted message still queued, or stop() was issued while another sender was pending",
-                quick_cases: 6000,
+                quick_cases: 20000,
                 thorough_cases: 60000,
                 tape_len: 500,
                 log_polls: false,
@@ -98,7 +98,7 @@ pub fn get(id: &str, thorough: bool) -> Option<PropDef> {
                 labels: m::c02_labels,
                 nontrivial: &["two_senders_waiting_for_slot", "one_sender_ask_and_tell_handled", "send_racing_stop"],
                 rule: "scenarios biased to capacity 1-3 with 3-6 senders; distinct by scenario hash; non-trivial iff >=2 senders were simultaneously waiting for a slot of one mailbox, or one sender had both an ask and a tell handled, or a send was in flight when stop() was called",
-                quick_cases: 6000,
+                quick_cases: 20000,
                 thorough_cases: 60000,
                 tape_len: 500,
                 log_polls: false,
@@ -126,7 +126,7 @@ pub fn get(id: &str, thorough: bool) -> Option<PropDef> {
                 labels: m::c03_labels,
                 nontrivial: &["two_asks_outstanding_at_end", "ask_join_failing_job"],
                 rule: "3-8 concurrent askers (ask, ask_with_timeout, ask_join, erased) against actors that end by every cause at generated instants; distinct by scenario hash; non-trivial iff >=2 asks were outstanding on an actor at the moment it began to end, or an ask_join met a panicking/aborted job",
-                quick_cases: 6000,
+                quick_cases: 20000,
                 thorough_cases: 60000,
                 tape_len: 500,
                 log_polls: false,
@@ -158,7 +158,7 @@ pub fn get(id: &str, thorough: bool) -> Option<PropDef> {
                     labels: m::c04_labels,
                     nontrivial: &["cause_during_hook", "two_causes_within_2ms"],
                     rule: "every termination cause (stop, kill, last drop, on_start error/panic, on_run error/panic, handler/on_stop panic) arriving in every phase, with all hook outcome combinations; distinct by scenario hash; non-trivial iff a termination cause arrived while a hook was executing or two causes arrived within 2 virtual ms",
-                    quick_cases: 6000,
+                    quick_cases: 20000,
                     thorough_cases: 60000,
                     tape_len: 500,
                     log_polls: false,
@@ -172,7 +172,7 @@ pub fn get(id: &str, thorough: bool) -> Option<PropDef> {
                     labels: m::c04_labels,
                     nontrivial: &["cause_during_hook", "two_causes_within_2ms", "on_run_error", "panic", "on_start_error"],
                     rule: "as C04 with unique error tags per hook invocation; distinct by scenario hash; non-trivial iff the run ended other than by an uncontended graceful stop (cause during a hook, racing causes, on_run/on_start error, panic)",
-                    quick_cases: 6000,
+                    quick_cases: 20000,
                     thorough_cases: 60000,
                     tape_len: 500,
                     log_polls: false,
@@ -202,7 +202,7 @@ pub fn get(id: &str, thorough: bool) -> Option<PropDef> {
                 labels: m::c06_labels,
                 nontrivial: &["kill_with_queue>=2"],
                 rule: "kill() (direct and through erased controls) at generated instants against actors with 0-64 queued messages in every phase; distinct by scenario hash; non-trivial iff >=2 messages were in the mailbox when a kill() returned on an actor that had not begun to end",
-                quick_cases: 6000,
+                quick_cases: 20000,
                 thorough_cases: 60000,
                 tape_len: 600,
                 log_polls: false,
@@ -234,7 +234,7 @@ pub fn get(id: &str, thorough: bool) -> Option<PropDef> {
                 labels: m::c07_labels,
                 nontrivial: &["last_strong_gone_with_queue", "last_strong_gone_weak_remaining", "alive_after_on_run_false", "erased_handle_held", "upgraded_handle"],
                 rule: "histories of clone/drop/downgrade/upgrade/convert-to-trait-object interleaved with traffic; harness-side model = number of strong handles it holds; distinct by scenario hash; non-trivial iff the last strong handle disappeared with messages queued or with weak handles remaining, or an actor was alive and serving after on_run returned Ok(false), or an erased / upgraded handle was the one keeping the actor",
-                quick_cases: 6000,
+                quick_cases: 20000,
                 thorough_cases: 60000,
                 tape_len: 500,
                 log_polls: false,
@@ -254,16 +254,36 @@ pub fn get(id: &str, thorough: bool) -> Option<PropDef> {
             p.p_delay = (2, 3);
             p.max_delay = 10;
             p.caps = vec![1, 2, 4, 8, 32, 0];
+            // bursts of more than 128 ready messages: the coop-budget boundary of the pinned tokio
+            let mut b = p.clone();
+            b.name = "C08-burst";
+            b.clients = (1, 2);
+            b.ops = (130, 170);
+            b.caps = vec![256, 32, 0];
+            b.p_delay = (1, 80);
+            b.p_work = (1, 40);
+            b.w_how = [30, 1, 1, 0, 0];
+            b.w_stop = 0;
+            b.w_kill = 0;
+            b.w_clone = 0;
+            b.w_drop = 0;
+            b.w_downgrade = 0;
+            b.w_convert = 0;
+            b.w_probe = 0;
+            b.w_probeweak = 0;
+            b.w_run_out = [8, 1, 0, 0];
+            b.runs = (2, 4);
+            b.p_end_drop = (0, 1);
             PropDef {
                 id: "C08",
-                profiles: vec![p],
+                profiles: vec![p, b],
                 monitor: m::c08,
                 labels: m::c08_labels,
                 nontrivial: &["message_interrupted_on_run", "traffic_after_ok_false"],
                 rule: "on_run scripts (await durations, then Ok(true)/Ok(false)/Err) with message arrivals placed around their await points; distinct by scenario hash; non-trivial iff a message was handled while an on_run invocation was suspended at an await, or traffic continued after on_run returned Ok(false)",
-                quick_cases: 6000,
+                quick_cases: 20000,
                 thorough_cases: 60000,
-                tape_len: 500,
+                tape_len: 1500,
                 log_polls: true,
                 mode: Mode::Single,
             }
@@ -294,7 +314,7 @@ pub fn get(id: &str, thorough: bool) -> Option<PropDef> {
                 labels: m::c09_labels,
                 nontrivial: &["send_waited_for_slot", "stop_waited_for_slot"],
                 rule: "capacities 1-256 (and spawn default), 1-8 senders, a gate (slow on_start / slow handlers) so the mailbox fills; occupancy bounds recomputed from the trace at every event and every quiescent instant; distinct by scenario hash; non-trivial iff at least one tell/stop had to wait for a slot",
-                quick_cases: 5000,
+                quick_cases: 15000,
                 thorough_cases: 50000,
                 tape_len: 900,
                 log_polls: false,
@@ -323,7 +343,7 @@ pub fn get(id: &str, thorough: bool) -> Option<PropDef> {
                 labels: m::c10_labels,
                 nontrivial: &["tie", "near_deadline", "tell_timeout", "failure_before_deadline", "tell_t_waited_then_ok"],
                 rule: "tell_with_timeout / ask_with_timeout with timeouts 0..40 ms (odd and even) and one huge value, natural completion placed before/at/after/never relative to the deadline, mailbox free/full/closed, actor dying before the deadline; all instants compared in virtual ms; distinct by scenario hash; non-trivial iff |completion - deadline| <= 2 ms, or a tell timed out / waited on a full mailbox, or a non-timeout failure occurred during a timed call",
-                quick_cases: 6000,
+                quick_cases: 20000,
                 thorough_cases: 60000,
                 tape_len: 500,
                 log_polls: false,
@@ -357,7 +377,7 @@ pub fn get(id: &str, thorough: bool) -> Option<PropDef> {
                 labels: m::c11_labels,
                 nontrivial: &["probe_during_on_start", "probe_during_on_stop", "probe_after_end", "weak_probe_after_end"],
                 rule: "identity()/is_alive()/upgrade() probes through every kind of derived handle (clone, weak, upgraded, every erased view) at generated instants of lifecycles ending by every cause; distinct by scenario hash; non-trivial iff a probe was taken during on_start, during on_stop or after the actor ended",
-                quick_cases: 6000,
+                quick_cases: 20000,
                 thorough_cases: 60000,
                 tape_len: 500,
                 log_polls: false,
@@ -396,7 +416,7 @@ pub fn get(id: &str, thorough: bool) -> Option<PropDef> {
                 labels: m2::c12_labels,
                 nontrivial: &["peer_op_in_flight_to_victim", "victim_op_in_flight_to_peer", "client_op_in_flight_to_victim"],
                 rule: "2-4 actors exchanging asks/tells with a panic or error injected into a generated hook invocation (on_start, k-th handler, k-th on_run, on_stop) of some actor; all other monitors are applied to the whole system, plus victim-specific checks, a fresh actor spawned afterwards, dead-letter accounting and (full build) wait-for-graph residue; the C12-cyclic profile (ask cycles) is generated only for the build with deadlock detection; distinct by scenario hash; non-trivial iff an operation between the victim and a peer or client was in flight when the victim failed",
-                quick_cases: 4000,
+                quick_cases: 12000,
                 thorough_cases: 40000,
                 tape_len: 700,
                 log_polls: false,
@@ -430,7 +450,7 @@ pub fn get(id: &str, thorough: bool) -> Option<PropDef> {
                 labels: m2::c13_labels,
                 nontrivial: &["two_failure_reasons"],
                 rule: "every tell/ask-family operation against actors in every lifecycle state (not started, running, full mailbox, stopping, dead by each cause); dead-letter records captured by an in-process tracing subscriber are matched one-to-one against failed operations (target id, message type name, reason, operation label) and against dead_letter_count(); distinct by scenario hash; non-trivial iff failures of at least two different reasons occurred in the case",
-                quick_cases: 5000,
+                quick_cases: 15000,
                 thorough_cases: 50000,
                 tape_len: 600,
                 log_polls: false,
@@ -458,15 +478,22 @@ pub fn get(id: &str, thorough: bool) -> Option<PropDef> {
             p.max_work = 6;
             p.max_delay = 16;
             p.sampler = true;
+            let mut ring = p.clone();
+            ring.name = if id == "C14" { "C14-ring" } else { "C15-ring" };
+            ring.actors = (3, 5);
+            ring.peer = Peer::Others;
+            ring.p_peer = (4, 5);
+            ring.p_hook_peer = (1, 5);
+            ring.clients = (1, 3);
             if id == "C14" {
                 PropDef {
                     id: "C14",
-                    profiles: vec![p],
+                    profiles: vec![p, ring],
                     monitor: m2::c14,
                     labels: m2::c14_labels,
                     nontrivial: &["cycle_len_2", "cycle_len>=3", "cycle_through_lifecycle_hook"],
                     rule: "1-5 actors whose hooks (on_start, handlers, on_run, on_stop) contain sequential directly-awaited asks (ask / ask_with_timeout) to arbitrary peers including themselves; logical wait-for graph rebuilt from the trace; distinct by scenario hash; non-trivial iff a would-be cycle of length >= 2 occurred or a cycle ran through a lifecycle hook",
-                    quick_cases: 5000,
+                    quick_cases: 15000,
                     thorough_cases: 50000,
                     tape_len: 700,
                     log_polls: false,
@@ -477,12 +504,12 @@ pub fn get(id: &str, thorough: bool) -> Option<PropDef> {
                 p.w_msg_out = [20, 1, 1];
                 PropDef {
                     id: "C15",
-                    profiles: vec![p],
+                    profiles: vec![p, ring],
                     monitor: m2::c15,
                     labels: m2::c15_labels,
                     nontrivial: &["reverse_ask_within_2ms_of_reply", "actor_ask_timed_out", "actor_ask_cancelled", "actor_ask_failed", "actor_ask_panicked"],
                     rule: "same topology generator as C14 (statically cyclic, mostly acyclic in time) with timeouts, cancellations (on_run pre-emption), callee deaths and non-actor askers; every deadlock panic must be justified by a chain of unanswered asks in the logical graph; the real wait-for graph (verification hook) is sampled at every odd virtual millisecond (a quiescent instant by construction) and must equal the set of asks in flight; distinct by scenario hash; non-trivial iff B asked A within 2 ms after answering A, or an actor-context ask ended by timeout / cancellation / failure / panic",
-                    quick_cases: 5000,
+                    quick_cases: 15000,
                     thorough_cases: 50000,
                     tape_len: 700,
                     log_polls: false,
@@ -520,7 +547,7 @@ pub fn get(id: &str, thorough: bool) -> Option<PropDef> {
                 labels: m2::c16_labels,
                 nontrivial: &["three_wrapper_kinds_with_timeout_or_lifecycle"],
                 rule: "metamorphic: each generated scenario is executed twice in the deterministic simulator - once with plain ActorRef/ActorWeak handles, once with every client handle held as a bundle of type-erased trait objects (TellHandler, AskHandler, ActorControl and their weak forms, built through both From forms) and every operation routed through a pseudo-randomly chosen equivalent erased path (direct, clone_boxed, Clone for Box, downgrade+upgrade, as_control/as_weak_control); the canonical traces (virtual times, results, hook order, final results, identities, dead letters) must be equal; distinct by scenario hash; non-trivial iff the erased run used >= 3 different operation kinds and included a timeout or lifecycle operation",
-                quick_cases: 4000,
+                quick_cases: 12000,
                 thorough_cases: 40000,
                 tape_len: 600,
                 log_polls: false,
@@ -554,7 +581,7 @@ pub fn get(id: &str, thorough: bool) -> Option<PropDef> {
                 labels: m2::c18_labels,
                 nontrivial: &["ask_and_timeout_and_nontrivial_end"],
                 rule: "differential across builds: the same generated scenarios (union of the C01-C10 profiles plus peer asks in arbitrary topologies) are executed by harness builds with different rsactor feature sets and by a default-feature reference process; canonical traces (client results with virtual return times, per-actor hook sequences with times, handling order, final ActorResults with the state they carry; process-global ids replaced by scenario indices; log output excluded) must be identical; cases whose default-feature run contains a logical ask cycle are excluded and counted; distinct by scenario hash; non-trivial iff the case contains >=1 ask, >=1 timeout operation and a termination other than an uncontended graceful stop",
-                quick_cases: 2500,
+                quick_cases: 6000,
                 thorough_cases: 30000,
                 tape_len: 600,
                 log_polls: false,
@@ -605,7 +632,7 @@ pub fn get(id: &str, thorough: bool) -> Option<PropDef> {
                 labels: m2::c19_labels,
                 nontrivial: &["handled_tell_and_ask"],
                 rule: "two parts. (1) generated programs: actor shape (named/tuple/unit struct, enum) x generics (none, inline bounds, where clause, two parameters) x derive(Actor)/manual x 1-4 handlers, each = attribute {#[handler], #[handler()], (result), (no_log)} x return spelling {none, (), u32, String, tuple, Option, Vec, generic T, Result, std::result::Result, anyhow::Result, alias of Result} x message kind (named, tuple, generic wrapper, destructuring pattern, unit) x third-parameter spelling x co-existing non-handler methods, compiled offline against the real macros together with 11 kinds of negative programs; distinct by descriptor hash; a program is non-trivial iff it has >=2 handlers of different (attribute, return-spelling) classes. (2) runtime half in the simulator: manual Message impls recording every on_tell_result call; non-trivial iff both a tell and an ask were handled",
-                quick_cases: 3000,
+                quick_cases: 10000,
                 thorough_cases: 30000,
                 tape_len: 500,
                 log_polls: false,
